@@ -75,6 +75,10 @@ void setStr(strvector *s, size_t i, char *str)
   //   strcpy(s->data[i], str);
   xfree(s->data[i]);
   s->data[i] = strdup(str);
+  if(s->data[i] == NULL){
+    fprintf(stderr, "[Libscientific] Memory Exhausted!\n");
+    abort();
+  }
 }
 
 char* getStr(strvector *s, size_t i)
